@@ -360,6 +360,62 @@ def check_kernel(out, facts):
         out.fail('K4-K5', 'helper:bulk [%s]' % cfg, 'not found', '-')
 
 
+def shortcut_success_exit(t):
+    """every way of finishing an in-place array decode successfully went through the bulk read or the element loop"""
+    for p in paths(t):
+        fin = [e for e in p if e[0] == 'OWN' and e[1] == 'assert_decoding_finished']
+        if not fin or (p and p[-1][0] in ('?ERR', 'ERR', 'PANIC')):
+            continue
+        did_read = any(e[0] == 'read' for e in p)
+        did_loop = any(e[0] in ('LOOP0', 'LOOP1') for e in p)
+        if not (did_read or did_loop):
+            arms = ['%s=%s' % (sym.vstr(e[1][1])[:60] if isinstance(e[1], tuple) and len(e[1]) > 1 else e[1], e[2]) for e in p if e[0] == 'ARM']
+            return 'a success exit skips both the bulk read and the element loop (under %s): the elements are neither decoded nor initialised' % ', '.join(arms)
+    return None
+
+
+def _input_effects(t):
+    """the input-side effects of a decoder term, in order, without value flow"""
+    out = []
+    for e in events(t):
+        if e[0] == 'dec':
+            out.append('dec<%s>' % e[1])
+        elif e[0] in ('read', 'rb'):
+            out.append(e[0])
+        elif e[0] in ('DESC', 'ASC'):
+            out.append(e[0])
+        elif e[0] == 'HOOK':
+            out.append('HOOK')
+    return out
+
+
+def check_decode_into_overrides(out, facts, S):
+    """R02.5: `decode_into` is a second entry point of the same decoder.  Apart from the array impl (whose `decode` is
+    defined through it: R02.2 / R10.2) an impl that overrides it must perform the same input effects as its `decode`
+    (same decodes, reads, depth and allocation hooks, in the same order)."""
+    cfg = facts.cfg
+    n = 0
+    for i in facts.impls_of('Decode'):
+        ms = {f['method']: f for f in facts.methods('Decode') if f.get('impl') == i['path'] and f['self'] == i['self']}
+        if 'decode_into' not in ms:
+            continue
+        n += 1
+        key = 'impl Decode for %s / decode_into [%s]' % (i['self'], cfg)
+        if i['self'] == '[T; N]':
+            out.ob('R02.5', key, True, '', ms['decode_into']['loc'])
+            continue
+        f_into, f_dec = ms['decode_into'], ms.get('decode')
+        if not f_dec:
+            out.ob('R02.5', key, False, 'decode_into is overridden but decode is not: nothing to compare it with', f_into['loc'])
+            continue
+        t1, _, _ = wire.infer_decoder_fn(facts, f_into)
+        t2, _, _ = wire.infer_decoder_fn(facts, f_dec)
+        a, b = _input_effects(t1), _input_effects(t2)
+        out.ob('R02.5', key, a == b, 'the in-place entry point does not perform the input effects of decode: decode_into %s vs decode %s' % (a, b), f_into['loc'],
+               sample={'decode_into': a, 'decode': b})
+    out.count('R02.5 decode_into overrides [%s]' % cfg, n)
+
+
 def check_arrays(out, facts):
     cfg = facts.cfg
     f = facts.impl_method('Decode', '[T; N]', 'decode_into')
@@ -400,6 +456,9 @@ def check_arrays(out, facts):
                 why.append('element destination is not slice[count]: ' + sym.vstr(evs[0][4]))
             if not (sym.vstr(evs[2][1]) == 'mut state.count' and evs[2][3] == 'AddAssign' and sym.vstr(evs[2][2]) == '1:usize'):
                 why.append('count is not incremented by one after the successful element decode')
+    w = shortcut_success_exit(t)
+    if w:
+        why.append(w)
     out.ob('R02.2', '[T; N]::decode_into [%s]' % cfg, not why, '; '.join(why), f['loc'], sample={'term': sym.tstr(t)[:300]})
 
 
@@ -452,6 +511,7 @@ def run(cx, out):
     out.rule('K3', 'item path: one decode + one push per index of 0..chunk')
     out.rule('K4-K5', 'bulk path: length extended by chunk, bytes read from old_len*size on; byte_len by checked_mul')
     out.rule('R02.2', 'array decode_into: bulk read of calculate_array_bytesize bytes; element loop decode_into(slice[count]) then count += 1 while count < N')
+    out.rule('R02.5', 'library decode_into overrides perform the input effects of decode (array impl: R02.2)')
     out.rule('R08.4', 'BytesCursor (decode_from_bytes / zero-copy Bytes): reads and position bookkeeping consume exactly the bytes decoded')
     out.rule('R02.4', 'every non-zero-sized field of a foreign struct is observed by its hand-written encoder')
     for cfg in lib_cfgs(cx):
@@ -462,18 +522,19 @@ def run(cx, out):
         check_mirror(out, facts, S, D)
         check_kernel(out, facts)
         check_arrays(out, facts)
+        check_decode_into_overrides(out, facts, S)
         check_state_coverage(out, facts, S)
         if any(i['self'] == 'codec::BytesCursor' for i in facts.impls_of('Input')):
             # Bytes values are decoded through the cursor: its bookkeeping is part of "consumes exactly the encoding"
             from . import c08
             c08.check_bytes_cursor(out, facts)
     # derived impls: the derive corpus of C05
-    from . import c05 as _c05
-    from ..report import Out as _Out
-    _sub = _Out('C05')
-    _c05.run(cx, _sub)
+    from . import shared
     out.rule('R05.2', 'R02.3: derived decoders mirror the derived encoders per corpus definition (C05)')
     out.rule('R05.5', 'derived in-place decode_into reads the same representation as decode (only for attribute-free transparent structs)')
-    out.absorb(_sub, {'R05.5', 'R05.2'})
+    # premises: derived impls (C05); bulk paths reinterpret memory only for the primitives named by TYPE_INFO (C01
+    # R01.3); all encoding entry points agree (C07 R07.1); every Input implementation delivers exactly the bytes asked
+    # for or fails (C08 R08.4)
+    shared.premises(cx, out, {'c05': {'R05.5', 'R05.2'}, 'c01': {'R01.3'}, 'c07': {'R07.1'}, 'c08': {'R08.4'}})
     from . import positive
     positive.check(cx, out, 'C02')
